@@ -2,23 +2,28 @@
 C01, text formats — what the OPL / XML writers write, the OPL / XML readers read back.
 
 Property theorems only (models: Osmium/Model/{OplFmt,XmlFmt}.lean; helper lemmas:
-Osmium/Lemmas/{OplFmt,OplFmtObj,OplFmtCs,XmlFmt,XmlFmtObj,XmlFmtRun,XmlFmtRt,XmlFmtFile}.lean).  The
+Osmium/Lemmas/{OplFmt,OplFmtObj,OplFmtCs,OplSpecFile,OplSpecFile2,XmlFmt,XmlFmtObj,XmlFmtRun,XmlFmtRt,XmlFmtFile,
+XmlFmtCsDefs,XmlFmtCs,XmlFmtCs2,XmlFmtCs3,XmlFmtCs4,XmlFmtCsFile}.lean).  The
 string and number fields are discharged by the round-trip theorems of C14 (`opl_roundtrip`,
 `xml_roundtrip_partial`) and C13 (`coord_roundtrip`, `output_int_roundtrip`, `ts_roundtrip`,
 `object_id_strict`, `ulong_strict`).
 
 `project opts o` is the object with every field the option vector drops reset to its default.
 
-Proved: `opl_roundtrip` (all four object kinds, all option vectors), `xml_roundtrip` (nodes, ways,
-relations, all option vectors, every position the writer puts them in), `xml_file_roundtrip` /
-`xml_file_roundtrip_expat` (header with generator and boxes + change sections + object sequence of
-one buffer), `xml_header_roundtrip`, `change_file_roundtrip`.
-NOT proved: XML changesets / discussions (only the differential check), files of several
-buffers (the op tags are per buffer; same lemmas, fold not done), a file-level OPL theorem over
-`Chunks.specLines`.
+Proved: `opl_roundtrip` (all four object kinds, all option vectors), `opl_file_roundtrip` (whole
+files through `Chunks.specLines`), `xml_roundtrip` (nodes, ways, relations, all option vectors, every
+position the writer puts them in), `xml_roundtrip_changeset` (changesets with discussions, anonymous
+ones included), `xml_file_roundtrip` / `xml_file_roundtrip_expat` (header with generator and boxes +
+change sections + object sequence of one buffer, changesets included outside change files),
+`xml_file_roundtrip_multi_buffer(_expat)` (any number of buffers), `xml_header_roundtrip`,
+`change_file_roundtrip`.
+Outside the domain (and said so where it matters): changesets inside change files
+(`xml_change_format`): the reader rejects `<changeset>` inside `<create>/<modify>/<delete>` and the
+writer puts a changeset into whatever section happens to be open.
 -/
 import Osmium.Lemmas.OplFmtCs
-import Osmium.Lemmas.XmlFmtFile
+import Osmium.Lemmas.OplSpecFile2
+import Osmium.Lemmas.XmlFmtCsFile
 
 namespace Osmium.C01Text
 open Osmium.Osm Osmium.TextFmt Osmium.Conv
@@ -83,6 +88,26 @@ example : ∀ obj ∈ [
     Object.changeset 4294967295 1 0 3 2 0 [] Location.undefined ⟨5, 6⟩ [⟨[0x61], [0x62]⟩] []], InDomain obj := by
   decide +kernel
 
+theorem InDomain.ok {obj : Object} (h : InDomain obj) : OplFmt.ObjOK obj := by
+  cases obj with
+  | node m l => exact ⟨h.1.ok, h.2⟩
+  | way m ns => exact ⟨h.1.ok, fun n hn => h.2 n hn⟩
+  | relation m ms => exact ⟨h.1.ok, fun x hx => h.2 x hx⟩
+  | changeset id ca cl nc ncm uid user bl tr tags cs =>
+    obtain ⟨h1, h2, h3, h4, h5, h6, h7, h8, h9, h10, h11⟩ := h
+    exact ⟨by omega, h2, h3, by omega, by omega, h6, h7, h8, h9, h10, fun t ht => h11 t ht⟩
+
+/-- **OPL file round trip.**  For every list of objects of the domain and every option vector:
+    the writer does not fail, and the reader — `OPLParser::run`, which splits the stream into lines
+    at LF / CR (`Chunks.specLines`, equal to the chunked `line_by_line` for EVERY chunking of the
+    input by `C06.opl_chunking`), cuts each at its first NUL and hands it to `opl_parse_line` —
+    returns exactly `project opts` of every object, in order.  (Needs, beyond `opl_roundtrip`, that
+    no line the writer produces contains LF, CR or NUL.) -/
+theorem opl_file_roundtrip (o : Opts) (objs : List Object) (h : ∀ obj ∈ objs, InDomain obj) :
+    ∃ bytes, OplFmt.writeFile o objs = .ok bytes ∧
+      OplFmt.parseFile {} bytes = .ok (objs.map (OplFmt.project o)) :=
+  OplFmt.opl_file_rt o objs fun obj ho => (h obj ho).ok
+
 /-! ## XML
 
 expat is a parameter of the XML model: the writer produces markup pieces, `eventsOf` is what a
@@ -131,7 +156,7 @@ open Osmium.XmlFmt in
     the writer does not fail; a conforming XML parser reports events for its markup (`eventsOf`,
     the ExpatContract); and the reader, fed with these events, appends exactly `project opts o`
     to its output and publishes the header — nothing else changes.
-    (Changesets with discussions are NOT covered by any XML theorem: only the differential check.) -/
+    (Changesets: `xml_roundtrip_changeset` below.) -/
 theorem xml_roundtrip (o : Opts) (obj : Object) (h : XmlInDomain obj) (st : RSt) (rest : List Ctx)
     (hs : st.stack = parentCtx o (metaOfObj obj) :: rest) (hc : st.cur = none) :
     ∃ ps evs, objectPieces o obj = .ok ps ∧ eventsOf ps = some evs ∧
@@ -170,6 +195,88 @@ theorem XmlInDomain.ok {obj : Object} (h : XmlInDomain obj) : XmlFmt.XObjOK obj 
   | relation m ms => exact ⟨h.1.ok, fun x hx => h.2 x hx⟩
   | changeset => exact absurd h (by simp [XmlInDomain])
 
+/-! ### changesets and discussions -/
+
+/-- a comment of a changeset discussion: any uint32 date; uid below 2^32−1 (`string_to_ulong`, the
+    recorded finding again); user and text XML strings -/
+def XCommentDom (c : Comment) : Prop :=
+  c.date < 4294967296 ∧ c.uid < 4294967295 ∧ XStrDom c.user ∧ XStrDom c.text
+
+/-- changesets of the XML domain: id and counters below 2^32−1 (`xml-u32-max:changeset`), any
+    uint32 timestamps, uid in [0, 2^31) — uid 0 with an empty (or any) user name is the anonymous
+    changeset —, bounding-box corners with int32 coordinates (undefined included), tags and a
+    discussion of any length -/
+def XmlChangesetDom : Object → Prop
+  | .changeset id ca cl nc ncm uid user bl tr tags cs =>
+    id < 4294967295 ∧ ca < 4294967296 ∧ cl < 4294967296 ∧ nc < 4294967295 ∧ ncm < 4294967295 ∧ 0 ≤ uid ∧
+    uid < 2147483648 ∧ XStrDom user ∧ XLocDom bl ∧ XLocDom tr ∧ (∀ t ∈ tags, XStrDom t.key ∧ XStrDom t.value) ∧
+    ∀ c ∈ cs, XCommentDom c
+  | _ => False
+
+instance : DecidablePred XmlChangesetDom := fun o => by
+  cases o <;> unfold XmlChangesetDom <;> (try unfold XCommentDom XLocDom XStrDom) <;> exact inferInstance
+
+/-- all four object kinds of the XML domain -/
+def XmlInDomainAll (obj : Object) : Prop := XmlInDomain obj ∨ XmlChangesetDom obj
+
+instance : DecidablePred XmlInDomainAll := fun o => by unfold XmlInDomainAll; exact inferInstance
+
+theorem XmlChangesetDom.ok {id ca cl nc ncm : Nat} {uid : Int} {user : Bytes} {bl tr : Location} {tags : List Tag}
+    {cs : List Comment} (h : XmlChangesetDom (.changeset id ca cl nc ncm uid user bl tr tags cs)) :
+    XmlFmt.XCsOK id ca cl nc ncm uid user bl tr tags cs := by
+  obtain ⟨h1, h2, h3, h4, h5, h6, h7, h8, h9, h10, h11, h12⟩ := h
+  exact ⟨h1, h2, h3, h4, h5, h6, h7, h8, h9, h10, fun t ht => h11 t ht, fun c hc => h12 c hc⟩
+
+theorem XmlInDomainAll.ok {obj : Object} (h : XmlInDomainAll obj) : XmlFmt.XObjOK2 obj := by
+  rcases h with h | h
+  · cases obj with
+    | node m l => exact XmlInDomain.ok h
+    | way m ns => exact XmlInDomain.ok h
+    | relation m ms => exact XmlInDomain.ok h
+    | changeset => exact absurd h (by simp [XmlInDomain])
+  · cases obj with
+    | changeset id ca cl nc ncm uid user bl tr tags cs => exact XmlChangesetDom.ok h
+    | node m l => exact absurd h (by simp [XmlChangesetDom])
+    | way m ns => exact absurd h (by simp [XmlChangesetDom])
+    | relation m ms => exact absurd h (by simp [XmlChangesetDom])
+
+open Osmium.XmlFmt in
+/-- **XML round trip (changesets with discussions).**  For every changeset of the XML domain —
+    anonymous ones (uid 0, the user name is then not written and reads back empty: `project`)
+    included, with any tags and any discussion (comments with date, uid, user, text) — and every
+    writer option vector (`changeset()` looks at none of the options), in every reader state that
+    stands directly under the root element with no text pending: the writer does not fail; a
+    conforming XML parser reports events for its markup (`eventsOf`, the ExpatContract: the text of
+    a comment arrives as character data with its references decoded); and the reader, fed with
+    these events, appends exactly `project opts o` — id, created_at, closed_at, num_changes,
+    comments_count, uid, user, bounding box, tags, and the discussion comment by comment — to its
+    output and publishes the header; nothing else changes.
+    (Inside `<create>/<modify>/<delete>` of a change file the reader rejects `<changeset>`:
+    `dataLevel … inChange = true`; outside the domain.) -/
+theorem xml_roundtrip_changeset (o : Opts) (obj : Object) (h : XmlChangesetDom obj) (st : RSt) (p : Ctx)
+    (hp : p = Ctx.osm ∨ p = Ctx.osmChange) (rest : List Ctx) (hs : st.stack = p :: rest) (hc : st.cur = none)
+    (hct : st.commentText = []) :
+    ∃ ps evs, objectPieces o obj = .ok ps ∧ eventsOf ps = some evs ∧
+      runEvents {} evs st = .ok { markDone st with out := XmlFmt.project o obj :: st.out } := by
+  cases obj with
+  | changeset id ca cl nc ncm uid user bl tr tags cs =>
+    obtain ⟨ps, hw, hr⟩ := changeset_rt o id ca cl nc ncm uid user bl tr tags cs h.ok st p hp rest hs hc hct
+    obtain ⟨evs, he, hrun⟩ := eventsOf_of_runPieces ps st _ hr
+    exact ⟨ps, evs, hw, he, hrun⟩
+  | node m l => exact absurd h (by simp [XmlChangesetDom])
+  | way m ns => exact absurd h (by simp [XmlChangesetDom])
+  | relation m ms => exact absurd h (by simp [XmlChangesetDom])
+
+/-- non-vacuity: a changeset with every attribute group, escapes in user / tag / comment text, a
+    two-comment discussion (one anonymous comment with empty text), a half-defined bounding box; an
+    anonymous open changeset without tags and comments -/
+example : ∀ obj ∈ [
+    Object.changeset 4294967294 1 4294967295 3 2 2147483647 [0x61, 0x22, 0x26] Location.undefined ⟨5, 2147483647⟩
+      [⟨[0x6b], [0x3c, 0x0a]⟩]
+      [⟨4294967295, 7, [0x75, 0x27], [0x68, 0x0a, 0x69, 0x3c, 0x26, 0x22, 0x20, 0xf0, 0x9f, 0x9a, 0x80]⟩, ⟨0, 0, [], []⟩],
+    Object.changeset 0 0 0 0 0 0 [] Location.undefined Location.undefined [] []], XmlChangesetDom obj := by
+  decide +kernel
+
 /-- headers of the XML domain: generator an XML string, boxes with int32 corners -/
 def XHeaderDom (h : Header) : Prop :=
   XStrDom h.generator ∧ ∀ b ∈ h.boxes, XLocDom b.1 ∧ XLocDom b.2
@@ -177,47 +284,90 @@ def XHeaderDom (h : Header) : Prop :=
 instance : DecidablePred XHeaderDom := fun h => by
   unfold XHeaderDom XStrDom XLocDom; exact inferInstance
 
+/-- what a file may carry: objects of the XML domain; changesets only outside change files -/
+def XFileDom (o : Opts) (objs : List Object) : Prop :=
+  (∀ obj ∈ objs, XmlInDomainAll obj) ∧ (o.changeOps = true → ∀ obj ∈ objs, XmlInDomain obj)
+
+theorem XFileDom.ok {o : Opts} {objs : List Object} (h : XFileDom o objs) : XmlFmt.FileObjsOK o objs := by
+  refine ⟨fun obj ho => (h.1 obj ho).ok, fun hco obj ho => ?_⟩
+  have := h.2 hco obj ho
+  cases obj <;> first | rfl | exact absurd this (by simp [XmlInDomain])
+
 open Osmium.XmlFmt in
-/-- **XML file round trip: header, change sections, objects** (`header_roundtrip` incl. the
-    generator clause, `change_file_roundtrip`, and the sequence version of `xml_roundtrip`).
-    For every header of the domain, every list of nodes / ways / relations of the XML domain
-    (one buffer) and EVERY option vector — in particular `xml_change_format`, where the writer
-    groups the objects into `<create>` (visible, version 1), `<modify>` (visible, other versions)
-    and `<delete>` (not visible) sections, opening and closing them as the operation changes —
+/-- **XML file round trip over several buffers.**  The Writer turns every buffer it is handed into
+    one `XMLOutputBlock` (in a change file the `<create>/<modify>/<delete>` section is closed at
+    the end of each block and re-opened in the next); the reader sees one document.  For every
+    header of the domain, every list of buffers whose objects are in the XML domain (nodes, ways,
+    relations; changesets with discussions too, outside change files) and EVERY option vector:
     the writer does not fail, a conforming parser reports events for the markup, and the reader
-    returns the header with the generator, the boxes normalised by `Box::extend` and
-    `has_multiple_object_versions` set exactly for change files, followed by exactly
-    `project opts` of every object, in order: the visible flag of every object of a change file
-    comes back from the section it stands in. -/
-theorem xml_file_roundtrip (o : Opts) (h : Header) (objs : List Object) (hh : XHeaderDom h)
-    (hall : ∀ obj ∈ objs, XmlInDomain obj) :
-    ∃ ps evs, filePieces o h [objs] = .ok ps ∧ eventsOf ps = some evs ∧
-      XmlFmt.read {} evs = .ok (projectHeader o h, objs.map (XmlFmt.project o)) := by
-  obtain ⟨ps, hps, r, hrun, hhdr, hout⟩ := file_run o h objs ⟨hh.1, fun b hb => hh.2 b hb⟩ (fun obj ho => (hall obj ho).ok)
+    returns the header (generator, boxes normalised by `Box::extend`, `has_multiple_object_versions`
+    exactly for change files) and exactly `project opts` of every object of every buffer, in order —
+    how the objects were distributed over buffers is invisible. -/
+theorem xml_file_roundtrip_multi_buffer (o : Opts) (h : Header) (blocks : List (List Object)) (hh : XHeaderDom h)
+    (hall : ∀ b ∈ blocks, XFileDom o b) :
+    ∃ ps evs, filePieces o h blocks = .ok ps ∧ eventsOf ps = some evs ∧
+      XmlFmt.read {} evs = .ok (projectHeader o h, blocks.flatten.map (XmlFmt.project o)) := by
+  obtain ⟨ps, hps, r, hrun, hhdr, hout⟩ := file_run_blocks o h blocks ⟨hh.1, fun b hb => hh.2 b hb⟩ (fun b hb => (hall b hb).ok)
   obtain ⟨evs, he, hre⟩ := eventsOf_of_runPieces ps {} r hrun
   refine ⟨ps, evs, hps, he, ?_⟩
   simp only [XmlFmt.read, hre, bindE_ok, hhdr, hout]
 
 open Osmium.XmlFmt in
 /-- the same through any parser that satisfies the (pointwise) ExpatContract on the document: the
-    bytes the writer produces read back as the projected data -/
-theorem xml_file_roundtrip_expat (expat : Bytes → Option (List Ev)) (o : Opts) (h : Header) (objs : List Object)
-    (hh : XHeaderDom h) (hall : ∀ obj ∈ objs, XmlInDomain obj)
-    (hc : ∀ ps, filePieces o h [objs] = .ok ps → ExpatContract expat ps) :
-    ∃ doc, XmlFmt.writeFile o h [objs] = .ok doc ∧
-      readFile expat {} doc = .ok (projectHeader o h, objs.map (XmlFmt.project o)) := by
-  obtain ⟨ps, evs, hps, he, hr⟩ := xml_file_roundtrip o h objs hh hall
+    bytes the writer produces for any sequence of buffers read back as the projected data -/
+theorem xml_file_roundtrip_multi_buffer_expat (expat : Bytes → Option (List Ev)) (o : Opts) (h : Header)
+    (blocks : List (List Object)) (hh : XHeaderDom h) (hall : ∀ b ∈ blocks, XFileDom o b)
+    (hc : ∀ ps, filePieces o h blocks = .ok ps → ExpatContract expat ps) :
+    ∃ doc, XmlFmt.writeFile o h blocks = .ok doc ∧
+      readFile expat {} doc = .ok (projectHeader o h, blocks.flatten.map (XmlFmt.project o)) := by
+  obtain ⟨ps, evs, hps, he, hr⟩ := xml_file_roundtrip_multi_buffer o h blocks hh hall
   refine ⟨xmlDecl ++ serialize ps, by simp [XmlFmt.writeFile, hps], ?_⟩
   have := hc ps hps
   unfold ExpatContract at this
   simp only [readFile, this, he, hr]
+
+open Osmium.XmlFmt in
+/-- **XML file round trip: header, change sections, objects** (`header_roundtrip` incl. the
+    generator clause, `change_file_roundtrip`, and the sequence version of `xml_roundtrip` and
+    `xml_roundtrip_changeset`).
+    For every header of the domain, every list of objects of the XML domain in one buffer — nodes,
+    ways, relations, and (outside change files) changesets with their discussions — and EVERY
+    option vector — in particular `xml_change_format`, where the writer groups the objects into
+    `<create>` (visible, version 1), `<modify>` (visible, other versions) and `<delete>` (not
+    visible) sections, opening and closing them as the operation changes — the writer does not
+    fail, a conforming parser reports events for the markup, and the reader returns the header with
+    the generator, the boxes normalised by `Box::extend` and `has_multiple_object_versions` set
+    exactly for change files, followed by exactly `project opts` of every object, in order: the
+    visible flag of every object of a change file comes back from the section it stands in.
+    (Changesets inside change files are outside the domain: see `xml_roundtrip_changeset`.) -/
+theorem xml_file_roundtrip (o : Opts) (h : Header) (objs : List Object) (hh : XHeaderDom h)
+    (hall : XFileDom o objs) :
+    ∃ ps evs, filePieces o h [objs] = .ok ps ∧ eventsOf ps = some evs ∧
+      XmlFmt.read {} evs = .ok (projectHeader o h, objs.map (XmlFmt.project o)) := by
+  simpa using xml_file_roundtrip_multi_buffer o h [objs] hh (by simpa using hall)
+
+open Osmium.XmlFmt in
+/-- the same through any parser that satisfies the (pointwise) ExpatContract on the document: the
+    bytes the writer produces read back as the projected data -/
+theorem xml_file_roundtrip_expat (expat : Bytes → Option (List Ev)) (o : Opts) (h : Header) (objs : List Object)
+    (hh : XHeaderDom h) (hall : XFileDom o objs)
+    (hc : ∀ ps, filePieces o h [objs] = .ok ps → ExpatContract expat ps) :
+    ∃ doc, XmlFmt.writeFile o h [objs] = .ok doc ∧
+      readFile expat {} doc = .ok (projectHeader o h, objs.map (XmlFmt.project o)) := by
+  simpa using xml_file_roundtrip_multi_buffer_expat expat o h [objs] hh (by simpa using hall) hc
+
+/-- non-vacuity: a plain file with a node and a changeset; a change file with the three n/w/r samples -/
+example : XFileDom {} [Object.node { id := 1 } ⟨1, 2⟩, Object.changeset 7 1 0 0 1 5 [0x61] Location.undefined ⟨5, 6⟩ []
+    [⟨1, 2, [0x62], [0x63]⟩]] ∧
+    XFileDom { changeOps := true } [Object.node { id := 1, visible := false } ⟨1, 2⟩, Object.way { id := 2, version := 1 } []] := by
+  refine ⟨⟨by decide +kernel, by simp⟩, ⟨by decide +kernel, fun _ => by decide +kernel⟩⟩
 
 /-- `header_roundtrip` (XML): generator, boxes (normalised by `Box::extend`), and the
     multiple-versions flag of an object-free file come back — for every header of the domain. -/
 theorem xml_header_roundtrip (o : Opts) (h : Header) (hh : XHeaderDom h) :
     ∃ ps evs, XmlFmt.filePieces o h [[]] = .ok ps ∧ XmlFmt.eventsOf ps = some evs ∧
       XmlFmt.read {} evs = .ok (XmlFmt.projectHeader o h, []) := by
-  simpa using xml_file_roundtrip o h [] hh (by simp)
+  simpa using xml_file_roundtrip o h [] hh ⟨by simp, by simp⟩
 
 example : XHeaderDom { generator := [0x6c, 0x69, 0x62, 0x20, 0x22, 0x3c, 0x26, 0xc3, 0xa9],
                        boxes := [(⟨-1800000000, -900000000⟩, ⟨1800000000, 900000000⟩)], multipleVersions := false } := by
@@ -232,7 +382,7 @@ theorem change_file_roundtrip (o : Opts) (ho : o.changeOps = true) (h : Header) 
       ∃ hdr out, XmlFmt.read {} evs = .ok (hdr, out) ∧ hdr.multipleVersions = true ∧ hdr.generator = h.generator ∧
         out = objs.map (XmlFmt.project o) ∧
         (out.map fun x => (metaOfObj x).visible) = objs.map fun x => (metaOfObj x).visible := by
-  obtain ⟨ps, evs, hps, he, hr⟩ := xml_file_roundtrip o h objs hh hall
+  obtain ⟨ps, evs, hps, he, hr⟩ := xml_file_roundtrip o h objs hh ⟨fun obj hob => Or.inl (hall obj hob), fun _ => hall⟩
   refine ⟨ps, evs, hps, he, _, _, hr, by simp [XmlFmt.projectHeader, ho], rfl, rfl, ?_⟩
   rw [List.map_map]
   apply List.map_congr_left
@@ -241,12 +391,12 @@ theorem change_file_roundtrip (o : Opts) (ho : o.changeOps = true) (h : Header) 
   cases x <;> simp [XmlFmt.project, XmlFmt.projectMeta, metaOfObj, ho] <;> exact absurd this (by simp [XmlInDomain])
 
 open Osmium.XmlFmt in
-/-- **Header boxes (XML), partial**: the four attributes of `<bounds>` as the writer formats them
-    (`append_lat_lon_attributes`: minlat, minlon, maxlat, maxlon), decoded by the reader's attribute
-    loop and normalised by `Box::extend`, give back the box — for every box with valid corners,
-    bottom-left ≤ top-right.  (Partial: the expat layer — that the attribute values reach the
-    reader unchanged — is the ExpatContract, checked by the harness; generator not covered.) -/
-theorem xml_header_bounds_roundtrip_partial (bl tr : Location) (h1 : valid bl = true) (h2 : valid tr = true)
+/-- **Header boxes (XML), attribute level**: the four attributes of `<bounds>` as the writer formats
+    them (`append_lat_lon_attributes`: minlat, minlon, maxlat, maxlon), decoded by the reader's
+    attribute loop and normalised by `Box::extend`, give back the box UNCHANGED — for every box with
+    valid corners, bottom-left ≤ top-right (for such boxes the normalisation in `projectHeader` of
+    `xml_header_roundtrip` is the identity). -/
+theorem xml_header_bounds_valid_identity (bl tr : Location) (h1 : valid bl = true) (h2 : valid tr = true)
     (hx : bl.x ≤ tr.x) (hy : bl.y ≤ tr.y) :
     bindE (boundsAttrs (XmlFmt.latLon "minlat" "minlon" bl ++ XmlFmt.latLon "maxlat" "maxlon" tr)
         Location.undefined Location.undefined)
